@@ -796,7 +796,47 @@ class Template(object):
 
 class Rule(object):
     """One alternative of a match pattern (5.5: a union is a set of rules)."""
-    __slots__ = ('pattern', 'priority', 'template', 'prec', 'order')
+    __slots__ = ('pattern', 'priority', 'template', 'prec', 'order', 'kinds', 'local')
+
+
+_CHILD_KINDS = frozenset(('element', 'text', 'comment', 'pi'))
+
+
+def _prefilter(alt):
+    """Sound necessary condition for a node to match a single-alternative
+    pattern, read off its LAST step: -> (set of node kinds | None, local name |
+    None).  Only an optimization: a node failing it cannot be selected by the
+    last step whatever the context."""
+    if alt[0] == 'path':
+        if not alt[2]:
+            return frozenset(('root',)), None
+        st = alt[2][-1]
+    elif alt[0] == 'fpath':
+        st = alt[2][-1]
+    else:
+        return None, None
+    axis, test = st[1], st[2]
+    if axis == 'attribute':
+        base = 'attribute'
+    elif axis == 'child':
+        base = 'element'
+    else:
+        return None, None
+    t = test[0]
+    if t == 'name':
+        return frozenset((base,)), test[2]
+    if t in ('any', 'nsany'):
+        return frozenset((base,)), None
+    if axis == 'attribute':
+        # attribute::node() selects attributes, attribute::text() nothing
+        return (frozenset(('attribute',)) if test == ('type', 'node') else frozenset()), None
+    if t == 'pi':
+        return frozenset(('pi',)), None
+    if t == 'type':
+        if test[1] == 'node':
+            return _CHILD_KINDS, None
+        return frozenset(({'text': 'text', 'comment': 'comment', 'processing-instruction': 'pi'}[test[1]],)), None
+    return None, None
 
 
 class Stylesheet(object):
@@ -1690,6 +1730,20 @@ _OUTPUT_ATTRS = ('method', 'version', 'encoding', 'omit-xml-declaration', 'stand
                  'media-type')
 
 
+_parse_cache = {}         # pure memo of (text, is_pattern) -> immutable AST
+
+
+def _parse_cached(text, pattern):
+    k = (text, pattern)
+    r = _parse_cache.get(k)
+    if r is None:
+        r = rx.parse_pattern(text) if pattern else rx.parse(text)
+        if len(_parse_cache) > 20000:
+            _parse_cache.clear()
+        _parse_cache[k] = r
+    return r
+
+
 class _Compiler(object):
     def __init__(self, decls, uri):
         self.decls = decls
@@ -1763,7 +1817,7 @@ class _Compiler(object):
     def expr(self, text, el, scope, keydef=False):
         ns = self.ns_for(el)
         try:
-            ast = rx.parse(text)
+            ast = _parse_cached(text, False)
         except rx.XPathSyntaxError as e:
             raise XSLTStaticError('%s: expression %r: %s' % (_where(el), text, e))
         scan = _Scan(ns)
@@ -1774,7 +1828,7 @@ class _Compiler(object):
     def pattern(self, text, el, scope, allow_vars, keydef=False):
         ns = self.ns_for(el)
         try:
-            ast = rx.parse_pattern(text)
+            ast = _parse_cached(text, True)
         except rx.XPathSyntaxError as e:
             raise XSLTStaticError('%s: pattern %r: %s' % (_where(el), text, e))
         scan = _Scan(ns)
@@ -2002,6 +2056,7 @@ class _Compiler(object):
                 r.template = t
                 r.prec = d.merged.prec
                 r.order = d.order
+                r.kinds, r.local = _prefilter(alt[1][0])
                 sheet.rules.setdefault(t.mode, []).append(r)
 
     def variable(self, el, scope, top=False):
@@ -2586,11 +2641,17 @@ class _State(object):
             return None
         best = None
         tie = False
-        gv = self.genv()
+        gv = None
         for r in rules:
+            if gv is None:
+                gv = self.genv()
             if lo is not None and not (lo <= r.prec < hi):
                 continue
             if best is not None and (r.prec, r.priority) < (best.prec, best.priority):
+                continue
+            if r.kinds is not None and node.kind not in r.kinds:
+                continue
+            if r.local is not None and node.local != r.local:
                 continue
             if not r.pattern.matches(self, node, gv):
                 continue
